@@ -36,7 +36,24 @@ func corpus() []*hist {
 	K := func(k kind) *gop { return &gop{k: k} }
 	RB, RR, UB, UR := K(kReadByte), K(kReadRune), K(kUnreadByte), K(kUnreadRune)
 	zero := initSpec{k: iZero}
+	// many small writes, then Grow: the capacity bound that decides which Grow sizes are in scope must not double per
+	// write (minimised from replays/C11-76c7b44e8409: thorough seed 1, eq-io 872 - a false alarm of the model's bound)
+	var manyWrites []*gop
+	for i := 0; i < 60; i++ {
+		switch i % 4 {
+		case 0:
+			manyWrites = append(manyWrites, WB(byte(i)))
+		case 1:
+			manyWrites = append(manyWrites, WR(rune(0x100+i)))
+		case 2:
+			manyWrites = append(manyWrites, &gop{k: kReadFrom, sc: []chunk{{seq(2, byte(i)), 0}, {nil, 0}, {seq(1, 7), 1}}})
+		default:
+			manyWrites = append(manyWrites, G(0))
+		}
+	}
+	manyWrites = append(manyWrites, G(6), G(1<<49), G(240), R(3), UB, K(kBytes))
 	return []*hist{
+		fixed("corpus-eq", true, initSpec{k: iNew, data: seq(10, 1), cp: 18}, manyWrites...),
 		// the defect repaired by commit 6078bb8: negative runes
 		fixed("corpus-eq", true, zero, WR(-1), WR(-191), WR(-2147483648), WR(-128), K(kBytes), RR, UR, RB, RR, RR, RR),
 		// reset-if-empty, small allocation, reslice, reallocation, with a legal Unread* after each kind of read
